@@ -994,6 +994,7 @@ fn contains_v3_3_op(expressions: &[Expression]) -> bool {
                     | Binary::LazyOr
                     | Binary::All
                     | Binary::Any
+                    | Binary::Get
                     | Binary::Ffi(_)
             ),
         })
@@ -1008,6 +1009,7 @@ fn contains_v3_3_term(term: &Term) -> bool {
     match term {
         Term::Null => true,
         Term::Set(s) => s.contains(&Term::Null),
+        Term::Array(_) | Term::Map(_) => true,
         _ => false,
     }
 }
